@@ -63,8 +63,8 @@ Definition shrink_s2 (k : nat) (s2 : s2len) : s2len := match s2 with S2Arr m => 
 Definition shrink_tmp (k : nat) (t : option nat) : option nat := match t with Some (S m) => Some (S m - k)%nat | o => o end.
 
 (* the four masked stores of the hand-written reading, on an arbitrary state: exactly Model/FitRetry.v's drop step *)
-Lemma stores_model : forall n k s2 tmp1,
-    run_stores model_drop_stores n k (mkL n n s2 tmp1)
+Lemma stores_model : forall n k s2 tmp1 gx gy,
+    run_stores model_drop_stores n k (mkL n n s2 tmp1 gx gy)
     = match (match tmp1 with
              | Some (S m) => if Nat.eqb (S m) n then Some (Some (S m - k)%nat) else None
              | other => Some other
@@ -73,12 +73,12 @@ Lemma stores_model : forall n k s2 tmp1,
              | S2Arr m => if Nat.eqb m n then Some (S2Arr (m - k)) else None
              | other => Some other
              end) with
-      | Some t2, Some s2n => inr (mkL (n - k) (n - k) s2n t2)
+      | Some t2, Some s2n => inr (mkL (n - k) (n - k) s2n t2 (n - k) (n - k))
       | _, _ => inl ix_error
       end.
 Proof.
-  intros n k s2 tmp1. unfold model_drop_stores.
-  cbn [run_stores geval alen aset l_X l_Y l_s2 l_tmp is_none is_scalar negb].
+  intros n k s2 tmp1 gx gy. unfold model_drop_stores.
+  cbn [run_stores geval alen aset l_X l_Y l_s2 l_tmp l_gX l_gY is_none is_scalar negb].
   rewrite !Nat.eqb_refl.
   destruct tmp1 as [[| m] |]; destruct s2 as [| | m2]; cbn [negb Nat.ltb Nat.leb]; try reflexivity.
   all: repeat match goal with |- context [Nat.eqb ?a ?b] => destruct (Nat.eqb a b) end; reflexivity.
@@ -94,7 +94,7 @@ Lemma mask_count_model : forall d n, mask_count model_mask d n = clip_drop d n.
 Proof. intros. reflexivity. Qed.
 
 (* one run of the generated handler (the hand-written reading) *)
-Definition handler_spec (i : nat) (rpat : Z) (d n : nat) (s2 : s2len) (tmp1 : option nat) (fl : list bool)
+Definition handler_spec (i : nat) (rpat : Z) (d n : nat) (s2 : s2len) (tmp1 : option nat) (gx gy : nat) (fl : list bool)
   : string + (lens * list bool) :=
   if Z.gtb (Z.of_nat i) (rpat - 1) then
     match n with
@@ -109,17 +109,17 @@ Definition handler_spec (i : nat) (rpat : Z) (d n : nat) (s2 : s2len) (tmp1 : op
                | S2Arr m => if Nat.eqb m n then Some (S2Arr (m - k)) else None
                | other => Some other
                end) with
-        | Some t2, Some s2n => inr (mkL (n - k) (n - k) s2n t2, fl)
+        | Some t2, Some s2n => inr (mkL (n - k) (n - k) s2n t2 (n - k) (n - k), fl)
         | _, _ => inl ix_error
         end
     end
-  else inr (mkL n n s2 tmp1, fl).
+  else inr (mkL n n s2 tmp1 gx gy, fl).
 
-Lemma handler_model : forall i l rpat d n s2 tmp1,
-    run_handler (rs_handler model_robust) i rpat d (mkL n n s2 tmp1) (repeat false i ++ repeat true (S l))
-    = handler_spec i rpat d n s2 tmp1 (repeat false (S i) ++ repeat true l).
+Lemma handler_model : forall i l rpat d n s2 tmp1 gx gy,
+    run_handler (rs_handler model_robust) i rpat d (mkL n n s2 tmp1 gx gy) (repeat false i ++ repeat true (S l))
+    = handler_spec i rpat d n s2 tmp1 gx gy (repeat false (S i) ++ repeat true l).
 Proof.
-  intros i l rpat d n s2 tmp1. unfold model_robust, handler_spec. cbn [rs_handler run_handler].
+  intros i l rpat d n s2 tmp1 gx gy. unfold model_robust, handler_spec. cbn [rs_handler run_handler].
   rewrite flags_length.
   assert (Hlt : Nat.ltb i (i + S l) = true) by (apply Nat.ltb_lt; lia).
   rewrite Hlt, set_flag_repeat, drop_cond_model.
@@ -139,14 +139,14 @@ Proof.
 Qed.
 
 (* ---------- (2a) the retry loop ---------- *)
-Lemma run_loop_model : forall rpat fails drops left i_try j nX nY s2 tmp tr,
-    run_loop model_robust rpat fails drops left i_try j (mkL nX nY s2 tmp) (repeat false i_try ++ repeat true left) false tr
+Lemma run_loop_model : forall rpat fails drops left i_try j nX nY s2 tmp gx gy tr,
+    run_loop model_robust rpat fails drops left i_try j (mkL nX nY s2 tmp gx gy) (repeat false i_try ++ repeat true left) false tr
     = robust_loop true rpat fails drops left i_try j nX nY s2 tmp tr.
 Proof.
   intros rpat fails drops left.
-  induction left as [| left IH]; intros i_try j nX nY s2 tmp tr.
+  induction left as [| left IH]; intros i_try j nX nY s2 tmp gx gy tr.
   - reflexivity.
-  - cbn [run_loop robust_loop]. unfold model_robust at 1. cbn [rs_fit_args l_X l_Y l_s2 l_tmp].
+  - cbn [run_loop robust_loop]. unfold model_robust at 1. cbn [rs_fit_args l_X l_Y l_s2 l_tmp l_gX l_gY].
     destruct (convert_error nX nY s2) as [msg |] eqn:Ec; [reflexivity |].
     apply convert_none_eq in Ec. subst nY.
     generalize (stored_after_fit nX s2 tmp) as tmp1. intro tmp1.
@@ -178,7 +178,7 @@ Lemma run_robust_model : forall rpat fails drops j nX nY s2 tmp,
 Proof.
   intros. unfold run_robust, robust_fit.
   change (rs_n_try model_robust) with n_try. change (rs_flag_init model_robust) with true.
-  exact (run_loop_model rpat fails drops n_try 0 j nX nY s2 tmp []).
+  exact (run_loop_model rpat fails drops n_try 0 j nX nY s2 tmp nX nY []).
 Qed.
 
 Theorem retry_loop_is_source :
@@ -197,15 +197,17 @@ Theorem drop_is_applied_to_all_three_is_source :
     drops_of (rs_handler src_robust) = [(c, m, stores)] /\
     (forall i rpat, zcond_eval c i rpat = Some (Z.gtb (Z.of_nat i) (rpat - 1))) /\
     m = model_mask /\
-    map (fun s => (fst (fst s), snd s)) stores = [(VX, MDrop); (VY, MDrop); (VTmp, MDrop); (VS2, MDrop)] /\
+    map (fun s => (fst (fst s), snd s)) stores
+    = [(VX, MDrop); (VY, MDrop); (VGpX, MCopy VX); (VGpY, MCopy VY); (VTmp, MDrop); (VS2, MDrop)] /\
     (forall d n, mask_count m d n = clip_drop d n) /\
-    forall n k s2 tmp, aligned n n s2 tmp ->
-      run_stores stores n k (mkL n n s2 tmp) = inr (mkL (n - k) (n - k) (shrink_s2 k s2) (shrink_tmp k tmp)).
+    forall n k s2 tmp gx gy, aligned n n s2 tmp ->
+      run_stores stores n k (mkL n n s2 tmp gx gy)
+      = inr (mkL (n - k) (n - k) (shrink_s2 k s2) (shrink_tmp k tmp) (n - k) (n - k)).
 Proof.
   exists model_drop_cond, model_mask, model_drop_stores.
   split; [reflexivity |]. split; [exact drop_cond_model |]. split; [reflexivity |]. split; [reflexivity |].
   split; [exact mask_count_model |].
-  intros n k s2 tmp (_ & Hs2 & Htmp). rewrite stores_model.
+  intros n k s2 tmp gx gy (_ & Hs2 & Htmp). rewrite stores_model.
   destruct tmp as [[| m] |]; destruct s2 as [| | m2]; cbn [shrink_s2 shrink_tmp]; try reflexivity;
     repeat match goal with
            | H : _ = n |- _ => rewrite H
@@ -309,20 +311,48 @@ Theorem restart_accumulates :
     == (2 # 1) * inject_Z (Z.of_nat f) * nn + inject_Z (Z.of_nat f) * (inject_Z (Z.of_nat f) + 1) * n0.
 Proof. rewrite src_restart_is_model. exact restart_closed_form. Qed.
 
-(* ---------- known finding: the slice sampler after a drop step, noisy mode ---------- *)
-Theorem slice_sampler_after_drop_refuted :
+(* ---------- the slice sampler of the restart sees an ALIGNED training set on tmp_gp (repair of slice-sampler-after-drop) ---------- *)
+Theorem slice_sampler_sees_aligned_set :
   exists c m stores,
     drops_of (rs_handler src_robust) = [(c, m, stores)] /\
-    forall n k, (1 <= k)%nat -> (1 <= n)%nat ->
-      exists st', run_stores stores n k (mkL n n (S2Arr n) (Some n)) = inr st' /\
-                  l_X st' = (n - k)%nat /\ l_tmp st' = Some (n - k)%nat /\
-                  sampler_ok (sampler_sees n st') = false.
+    forall n k s2 tmp gx gy, aligned n n s2 tmp ->
+      exists st', run_stores stores n k (mkL n n s2 tmp gx gy) = inr st' /\
+                  l_gX st' = (n - k)%nat /\ l_gY st' = (n - k)%nat /\
+                  (forall m0, l_tmp st' = Some m0 -> m0 = (n - k)%nat) /\
+                  sampler_ok (sampler_sees st') = true.
 Proof.
-  exists model_drop_cond, model_mask, model_drop_stores. split; [reflexivity |].
-  intros n k Hk Hn. rewrite stores_model.
-  destruct n as [| n']; [inversion Hn |].
+  destruct drop_is_applied_to_all_three_is_source as (c & m & stores & Hd & _ & _ & _ & _ & Hrun).
+  exists c, m, stores. split; [exact Hd |].
+  intros n k s2 tmp gx gy Hal. eexists. split; [apply Hrun; exact Hal |].
+  destruct Hal as (_ & _ & Htmp).
+  cbn [l_gX l_gY l_tmp]. split; [reflexivity |]. split; [reflexivity |].
+  assert (Ht : forall m0, shrink_tmp k tmp = Some m0 -> m0 = (n - k)%nat).
+  { intros m0 E. destruct tmp as [[| t] |]; cbn [shrink_tmp] in E; try discriminate E.
+    - injection E as <-. subst n. reflexivity.
+    - injection E as <-. subst n. reflexivity. }
+  split; [exact Ht |].
+  unfold sampler_ok, sampler_sees. cbn [l_gX l_gY l_tmp]. rewrite Nat.eqb_refl. cbn [andb].
+  destruct (shrink_tmp k tmp) as [m0 |] eqn:E; [| reflexivity].
+  rewrite (Ht m0 eq_refl). apply Nat.eqb_refl.
+Qed.
+
+(* REGRESSION (Proofs only): the drop step as it was before the repair — no store into tmp_gp.X / tmp_gp.y — leaves the GP object
+   with the n rows stored by the failed fit and n - k noise entries: the sampler's objective raises ValueError.  The generated
+   program of the unrepaired source has exactly these stores (seeded/C16-revert-slice-sampler-drop). *)
+Lemma old_drop_stores_misaligned :
+  forall n k, (1 <= k)%nat -> (1 <= n)%nat ->
+    exists st', run_stores old_drop_stores n k (mkL n n (S2Arr n) (Some n) n n) = inr st' /\
+                l_X st' = (n - k)%nat /\ l_gX st' = n /\ l_tmp st' = Some (n - k)%nat /\
+                sampler_ok (sampler_sees st') = false.
+Proof.
+  intros n k Hk Hn. unfold old_drop_stores.
+  cbn [run_stores geval alen aset l_X l_Y l_s2 l_tmp l_gX l_gY is_none is_scalar negb].
   rewrite !Nat.eqb_refl.
-  eexists. split; [reflexivity |]. split; [reflexivity |]. split; [reflexivity |].
-  unfold sampler_ok, sampler_sees. cbn [snd fst l_tmp].
+  destruct n as [| n']; [inversion Hn |].
+  cbn [negb Nat.ltb Nat.leb]. rewrite ?Nat.eqb_refl.
+  eexists. split; [reflexivity |]. repeat (split; [reflexivity |]).
+  unfold sampler_ok, sampler_sees. cbn [l_gX l_gY l_tmp]. rewrite Nat.eqb_refl. cbn [andb].
   apply Nat.eqb_neq. lia.
 Qed.
+Lemma old_form_is_not_the_model : old_drop_stores <> model_drop_stores.
+Proof. discriminate. Qed.
